@@ -18,10 +18,13 @@ DYADIC = [0.0, 0.5, 1.0, 2.0, 3.0, 4.0]
 NUMERALS = ["0", "1", "2", "3", "0.5", "1.5"]
 
 
-def gen_world(rng, numeric, n_agents, with_when=False, dense=False):
+def gen_world(rng, numeric, n_agents, with_when=False, dense=False, deep=False):
     """a small typed multi-agent domain: the first parameter of every action is its agent.
     dense: one item, few predicates, the global fluent g always present, hardly any precondition — neighbouring
-    actions of different agents are then often both applicable and often interfere"""
+    actions of different agents are then often both applicable and often interfere
+    deep: numeric expressions (assigned values, comparison operands of preconditions and of when-conditions) are
+    trees of depth 2-3 most of the time; conditional effects may have a numeric comparison as (part of) their condition.
+    With deep=False the random stream is consumed exactly as before the class was added."""
     w = G.World()
     w.types = {"agent": "object", "item": "object"}
     w.type_lines = [(["agent", "item"], "object")]
@@ -48,14 +51,20 @@ def gen_world(rng, numeric, n_agents, with_when=False, dense=False):
         pool = [("g", []), ("f", [("?a", "agent")]), ("v", [("?x", "item")])]
         rng.shuffle(pool)
         w.funcs = pool[:rng.randint(1, 3)]
+    if numeric and deep and rng.random() < 0.75:
+        # a second global fluent: a nested value can then read one global that a neighbour assigns without the two
+        # actions clashing on everything else
+        w.funcs = w.funcs + [("h", [])]
     for k in range(rng.randint(3, 5)):
         extra = rng.choice([[], [("?x", "item")], [("?x", "item")], [("?x", "item"), ("?y", "item")], [("?b", "agent")],
                             [("?x", "item"), ("?b", "agent")]])
         params = [("?a", "agent")] + extra
         w.actions.append({"name": "act%d" % k, "params": params, "group": False,
-                          "pre": gen_pre(rng, w, params, dense), "eff": gen_eff(rng, w, params, with_when)})
+                          "pre": gen_pre(rng, w, params, dense, deep), "eff": gen_eff(rng, w, params, with_when, deep)})
     if numeric:
         w.features.add("numeric")
+    if deep:
+        w.features.add("deep")
     if with_when:
         w.features.add("when")
     if dense:
@@ -87,8 +96,21 @@ def fluents_over(w, scope):
     return out
 
 
-def gen_nexp(rng, w, scope):
+def gen_tree(rng, fl, depth):
+    """an expression tree of exactly this depth (operators on the longest path); leaves: fluents and numerals"""
+    if depth == 0:
+        return rng.choice(fl) if rng.random() < 0.65 else rng.choice(NUMERALS)
+    op = rng.choice(["+", "*", "-", "+"])
+    a = gen_tree(rng, fl, depth - 1)
+    # a product has a numeral as one factor: values stay far from overflow along a walk
+    b = rng.choice(NUMERALS) if op == "*" else gen_tree(rng, fl, rng.randint(0, depth - 1))
+    return [op] + ([a, b] if rng.random() < 0.5 else [b, a])
+
+
+def gen_nexp(rng, w, scope, deep=False):
     fl = fluents_over(w, scope)
+    if deep and fl and rng.random() < 0.75:
+        return gen_tree(rng, fl, rng.choice([2, 2, 3]))
     r = rng.random()
     if fl and r < 0.4:
         return rng.choice(fl)
@@ -97,7 +119,7 @@ def gen_nexp(rng, w, scope):
     return rng.choice(NUMERALS)
 
 
-def gen_pre(rng, w, params, dense=False):
+def gen_pre(rng, w, params, dense=False, deep=False):
     items = []
     atoms = atoms_over(w, params)
     if dense and rng.random() < 0.6:
@@ -108,11 +130,11 @@ def gen_pre(rng, w, params, dense=False):
             items.append(a if rng.random() < 0.7 else ["not", a])
     fl = fluents_over(w, params)
     if fl and rng.random() < 0.5:
-        items.append([rng.choice([">=", "<=", ">", "<", ">="]), rng.choice(fl), gen_nexp(rng, w, params)])
+        items.append([rng.choice([">=", "<=", ">", "<", ">="]), rng.choice(fl), gen_nexp(rng, w, params, deep)])
     return ["and"] + items
 
 
-def gen_prims(rng, w, params, n, touched, written):
+def gen_prims(rng, w, params, n, touched, written, deep=False):
     atoms = atoms_over(w, params)
     fl = fluents_over(w, params)
     prims = []
@@ -122,7 +144,7 @@ def gen_prims(rng, w, params, n, touched, written):
             if tuple(f) in written:
                 continue
             written.add(tuple(f))
-            prims.append([rng.choice(["assign", "increase", "decrease"]), f, gen_nexp(rng, w, params)])
+            prims.append([rng.choice(["assign", "increase", "decrease"]), f, gen_nexp(rng, w, params, deep)])
         elif atoms:
             a = rng.choice(atoms)
             if tuple(a) in touched:
@@ -132,18 +154,32 @@ def gen_prims(rng, w, params, n, touched, written):
     return prims
 
 
-def gen_eff(rng, w, params, with_when):
+def gen_cmp(rng, w, params, deep):
+    """a numeric comparison; either side may be the nested one"""
+    fl = fluents_over(w, params)
+    a, b = (rng.choice(fl) if rng.random() < 0.7 else rng.choice(NUMERALS)), gen_nexp(rng, w, params, deep)
+    return [rng.choice([">=", "<=", ">", "<", ">="])] + ([a, b] if rng.random() < 0.6 else [b, a])
+
+
+def gen_eff(rng, w, params, with_when, deep=False):
     touched, written = set(), set()
-    prims = gen_prims(rng, w, params, rng.randint(1, 3), touched, written)
+    prims = gen_prims(rng, w, params, rng.randint(1, 3), touched, written, deep)
     if not prims:
-        prims = gen_prims(rng, w, params, 3, touched, written)
+        prims = gen_prims(rng, w, params, 3, touched, written, deep)
     items = list(prims)
-    if with_when and rng.random() < 0.5:
+    if with_when and rng.random() < (0.7 if deep else 0.5):
         atoms = atoms_over(w, params)
         if atoms:
             c = rng.choice(atoms)
             cond = c if rng.random() < 0.6 else ["not", c]
-            res = gen_prims(rng, w, params, rng.randint(1, 2), touched, written)
+            if deep and fluents_over(w, params):
+                # a numeric when-condition (alone, or next to a literal)
+                r = rng.random()
+                if r < 0.5:
+                    cond = gen_cmp(rng, w, params, deep)
+                elif r < 0.8:
+                    cond = ["and", cond, gen_cmp(rng, w, params, deep)]
+            res = gen_prims(rng, w, params, rng.randint(1, 2), touched, written, deep)
             if res:
                 items.append(["when", cond, res[0] if len(res) == 1 else ["and"] + res])
     return ["and"] + items
@@ -413,8 +449,175 @@ def executor(agents, c):
     return next((p for p in c[1:] if p in agents), None)
 
 
+# ---------------------------------------------------------------- nested numeric expressions (depth 2-3)
+def _leaf_depths(t, d, out):
+    """(fluent, depth below the root of the expression) for every fluent leaf of an expression tree"""
+    if isinstance(t, list) and t and t[0] in ("+", "-", "*", "/") and len(t) == 3:
+        _leaf_depths(t[1], d + 1, out)
+        _leaf_depths(t[2], d + 1, out)
+    elif isinstance(t, list):
+        out.append((tuple(t), d))
+    return out
+
+
+def effect_sets(action, args):
+    """of one ground action, read off the generator's trees: W fluents assigned, S fluents read by assigned values / numeric
+    when-conditions as the expression itself or a direct operand, D fluents read ONLY at depth >= 2, A / R atoms added /
+    removed, C atoms read by when-conditions"""
+    sub = {v: a for (v, _), a in zip(action["params"], args)}
+    reads, out = [], {"W": set(), "A": set(), "R": set(), "C": set()}
+
+    def g(f):
+        return tuple(sub.get(x, x) for x in f)
+
+    def cond(e):
+        if e[0] in (">=", "<=", ">", "<", "="):
+            for side in e[1:]:
+                reads.extend((g(f), d + 1) for f, d in _leaf_depths(side, 0, []))
+        elif e[0] in ("and", "not"):
+            for x in e[1:]:
+                cond(x)
+        else:
+            out["C"].add(g(e))
+
+    def visit(e):
+        if e[0] in ("assign", "increase", "decrease"):
+            out["W"].add(g(e[1]))
+            reads.extend((g(f), d) for f, d in _leaf_depths(e[2], 0, []))
+        elif e[0] == "when":
+            cond(e[1])
+            visit(e[2])
+        elif e[0] == "and":
+            for x in e[1:]:
+                visit(x)
+        elif e[0] == "not":
+            out["R"].add(g(e[1]))
+        else:
+            out["A"].add(g(e))
+    visit(action["eff"])
+    out["S"] = {f for f, d in reads if d <= 1}
+    out["D"] = {f for f, d in reads if d >= 2} - out["S"]
+    return out
+
+
+def effect_reads_writes(action, args):
+    x = effect_sets(action, args)
+    return x["W"], x["D"]
+
+
+def clean_deep_pairs(w, agents, items):
+    """how many pairs of ground actions of different agents have: one assigns a fluent the other reads only at depth >= 2,
+    and nothing else in common (no fluent assigned by both, no atom added by one and removed by the other, nothing read
+    at depth <= 1 or by a when-condition that the other changes).  Used to pick the worlds whose two-action plans are
+    enumerated: in a world drawn blindly nearly every such pair clashes on something else as well."""
+    import itertools
+    universe = agents + items + list(w.consts)
+    ground = []
+    for a in w.actions:
+        pools = [[o for o, t in universe if w.is_sub(t, pt)] for _, pt in a["params"]]
+        for combo in itertools.product(*pools):
+            if len(set(combo)) == len(combo):
+                ground.append((combo[0], effect_sets(a, combo)))
+    n = 0
+    for (e1, x), (e2, y) in itertools.combinations(ground, 2):
+        if e1 == e2 or not ((x["D"] & y["W"]) or (y["D"] & x["W"])):
+            continue
+        if (x["W"] & y["W"]) or (x["A"] & y["R"]) or (x["R"] & y["A"]) or (x["S"] & y["W"]) or (y["S"] & x["W"]) \
+                or (x["C"] & (y["A"] | y["R"])) or (y["C"] & (x["A"] | x["R"])):
+            continue
+        n += 1
+    return n
+
+
+def deep_rw_neighbours(actions, agents, plan):
+    """neighbouring actions of different agents where one assigns a fluent that the other's effects read only at
+    depth >= 2 (the class the depth-2/3 expressions were added for)"""
+    n, apart = 0, 0
+    info = [effect_reads_writes(actions[c[0]], c[1:]) for c in plan]
+    for (c1, (w1, r1)), (c2, (w2, r2)) in zip(zip(plan, info), list(zip(plan, info))[1:]):
+        e1, e2 = executor(agents, c1), executor(agents, c2)
+        if e1 is not None and e2 is not None and e1 != e2 and ((w1 & r2) or (w2 & r1)):
+            n += 1
+            apart += 0 if set(c1[1:]) & set(c2[1:]) else 1       # groupable even with the shared-object constraint on
+    return n, apart
+
+
+DEEP_STATS = {}
+
+
+def deep_inputs(rng, tier):
+    """numeric worlds whose assigned values and numeric when-conditions are trees of depth 2-3 (a stream of random numbers of
+    its own: the other inputs are what they were): random walks with both settings of the flag, and every valid two-action
+    plan of a few dense worlds"""
+    n, n_pair_worlds, cap = {"quick": (24, 3, 24), "thorough": (200, 6, 100)}[tier]
+    worlds = []
+    for k in range(n):
+        w, agents, items = gen_world(rng, True, rng.choice([2, 3, 3, 4]), with_when=rng.random() < 0.5, dense=rng.random() < 0.7,
+                                     deep=True)
+        objs = agents + items
+        st = G.gen_state(rng, w, objs, density=rng.choice([0.3, 0.5, 0.7]))
+        st["fluents"] = [(f, a, rng.choice(DYADIC)) for f, a, _ in st["fluents"]]
+        order = [a for a, _ in agents]
+        if rng.random() < 0.5:
+            rng.shuffle(order)
+        worlds.append({"domain_text": G.render(w.domain_tree("ma"), rng, False), "problem_text": G.problem_text(w, objs, st, domain="ma"),
+                       "agents": order, "features": sorted(w.features), "actions": {a["name"]: a for a in w.actions},
+                       "steps": rng.choice([4, 6, 8, 10, 12]), "walk_seed": rng.randint(1, 10 ** 9), "switch": rng.choice([0.7, 0.9]),
+                       "style": rng.choice(STYLES), "style_seed": rng.randint(1, 10 ** 9)})
+    pair_worlds = []
+    for k in range(n_pair_worlds):
+        # the best of a few candidates: see clean_deep_pairs
+        cands = [gen_world(rng, True, 2 + k % 2, with_when=(k % 2 == 1), dense=True, deep=True) for _ in range(8)]
+        w, agents, items = max(cands, key=lambda c: clean_deep_pairs(*c))
+        objs = agents + items
+        st = G.gen_state(rng, w, objs, density=0.5)
+        st["fluents"] = [(f, a, rng.choice(DYADIC)) for f, a, _ in st["fluents"]]
+        pair_worlds.append({"domain_text": G.render(w.domain_tree("ma"), rng, False),
+                            "problem_text": G.problem_text(w, objs, st, domain="ma"), "agents": [a for a, _ in agents],
+                            "features": sorted(w.features), "actions": {a["name"]: a for a in w.actions}})
+    res = run_impl([{"op": "c15.walk", "domain_text": w["domain_text"], "problem_text": w["problem_text"], "agents": w["agents"],
+                     "steps": w["steps"], "seed": w["walk_seed"], "switch": w["switch"]} for w in worlds] +
+                   [{"op": "c15.pairs", "domain_text": w["domain_text"], "problem_text": w["problem_text"], "agents": w["agents"],
+                     "cap": cap, "seed": rng.randint(1, 10 ** 6)} for w in pair_worlds])
+    inputs = []
+    stats = {"worlds": len(worlds), "worlds_with_a_numeric_when_condition": 0, "walks": 0, "pair_worlds": [],
+             "plans_with_neighbours_where_one_assigns_what_the_other_reads_only_at_depth_2_or_more": 0,
+             "of_these_flag_true_and_the_two_actions_share_no_object": 0}
+    for w, wk in zip(worlds, res[:len(worlds)]):
+        if any(isinstance(e, list) and e and e[0] == "when" and any(op in json.dumps(e[1]) for op in ('">="', '"<="', '">"', '"<"'))
+               for a in w["actions"].values() for e in a["eff"][1:]):
+            stats["worlds_with_a_numeric_when_condition"] += 1
+        if "plan" not in wk or len(wk["plan"]) < 2:
+            continue
+        plan = wk["plan"]
+        text = render_plan(random.Random(w["style_seed"]), plan, w["style"])
+        k, apart = deep_rw_neighbours(w["actions"], w["agents"], plan)
+        stats["walks"] += 1
+        stats["plans_with_neighbours_where_one_assigns_what_the_other_reads_only_at_depth_2_or_more"] += 2 if k else 0
+        stats["of_these_flag_true_and_the_two_actions_share_no_object"] += 1 if apart else 0
+        for flag in (True, False):
+            inputs.append({"kind": "generated:numeric-deep", "domain_text": w["domain_text"], "problem_text": w["problem_text"],
+                           "plan_text": text, "plan": [[t.lower() for t in st] for st in plan], "agents": w["agents"], "flag": flag,
+                           "features": w["features"], "style": w["style"]})
+    for w, pr in zip(pair_worlds, res[len(worlds):]):
+        plans = pr.get("plans", [])
+        hit = 0
+        for plan in plans:
+            k, _ = deep_rw_neighbours(w["actions"], w["agents"], plan)
+            hit += 1 if k else 0
+            text = "".join("%d : (%s)\n" % (i, " ".join(st)) for i, st in enumerate(plan))
+            for order in (w["agents"], list(reversed(w["agents"]))):
+                inputs.append({"kind": "pairs", "domain_text": w["domain_text"], "problem_text": w["problem_text"], "plan_text": text,
+                               "plan": plan, "agents": order, "flag": False, "features": w["features"], "style": "shipped"})
+        stats["pair_worlds"].append({"features": w["features"], "agents": w["agents"], "pairs_total": pr.get("total", 0),
+                                     "pairs_used": len(plans), "pairs_one_assigns_what_the_other_reads_only_at_depth_2_or_more": hit})
+    DEEP_STATS.clear()
+    DEEP_STATS.update(stats)
+    return inputs
+
+
 # ---------------------------------------------------------------- the run
-def build_inputs(rng, tier):
+def build_inputs(rng, tier, deep_rng=None):
     inputs = []
     # witnesses of recorded findings first
     for f in load_findings(PROP):
@@ -478,6 +681,8 @@ def build_inputs(rng, tier):
             inputs.append({"kind": "raw", "domain_text": raw_world["domain_text"], "problem_text": raw_world["problem_text"],
                            "plan_text": t, "plan": None, "agents": raw_world["agents"], "flag": rng.random() < 0.5,
                            "features": ["raw"]})
+    if deep_rng is not None:
+        inputs += deep_inputs(deep_rng, tier)
     return inputs
 
 
@@ -517,7 +722,7 @@ def run(args):
         else:
             inputs = [data["input"]["case"]]
     else:
-        inputs = build_inputs(rng, args.tier)
+        inputs = build_inputs(rng, args.tier, random.Random(args.seed * 32452843 + 1515))
         seqs = build_sequences(rng, args.tier)
     pre = run_impl([{"op": "c15.consts"}, {"op": "c15.facts"}, {"op": "core.numeric_config"}], nproc=1)
     consts, facts, cfg = pre
@@ -614,6 +819,10 @@ def run(args):
     cov["enumerated_two_action_plans"] = {"worlds": PAIR_WORLDS,
                                           "note": "every valid two-action plan with different executing agents from the initial state of each world "
                                                   "(all of them when pairs_used == pairs_total, a random subset otherwise), agent list in both orders"}
+    cov["nested_numeric_expressions"] = dict(DEEP_STATS, note="numeric worlds whose assigned values, precondition comparisons and numeric "
+                                             "when-conditions are expression trees of depth 2-3 over g / f(agent) / v(item) and numerals (kind "
+                                             "generated:numeric-deep: walks, both flag values; plus every valid two-action plan of the pair worlds, "
+                                             "counted under kind pairs)")
     cov["process_level_sequences"] = dict(seq_stats, note="one worker process per sequence: ONE Domain object, 2-3 problems parsed with it, ONE "
                                           "PlanConverter converting 5-14 plans (each plan with both flag values, agent list in given / shuffled / "
                                           "reversed order, the same text against another problem, an earlier call again verbatim), one plan-file "
@@ -631,6 +840,10 @@ def run(args):
                    "declaration or shuffled order; plus the six plans shipped under tests/multi_agent_tests and raw plan texts (scanner / error paths; model "
                    "agreement only). Observed: the joint actions (structure and str()), the final states of the sequential and of the joint run by the library. "
                    "Plus every valid two-action plan (different agents) of a few dense worlds, agent list in both orders. "
+                   "Plus numeric worlds (kind generated:numeric-deep, a random stream of their own) whose assigned values, precondition comparisons and "
+                   "numeric when-conditions are expression trees of depth 2-3 (a second global fluent h), as walks with both flag values and as "
+                   "enumerated two-action plans of dense worlds picked (best of 8) for pairs of actions where one assigns a fluent the other reads "
+                   "only at depth >= 2 and nothing else clashes. "
                    "Non-trivial: a plan of at least 3 actions executed by at least 2 agents, or an enumerated two-action plan; distinct by input hash.")
     cov["samples"] = [{"kind": c["input"]["case"]["kind"], "agents": c["input"]["case"]["agents"], "flag": c["input"]["case"]["flag"],
                        "plan_text": c["input"]["case"]["plan_text"][:300],
